@@ -678,3 +678,36 @@ def str_starts_with_str(ctx, args, st):
         for s2, hit in _match_at(ctx.ex, st, s.chars, at, p.chars):
             yield s2, 'ret', Bool(hit)
     return g()
+
+
+@model(r'^<(?:str|String|&str|&String|KString\w*(?:<.*>)?|&KString\w*(?:<.*>)?|kstring::\w+::KString\w*(?:<.*>)?|Option<String>) as (PartialOrd|Ord)(?:<.*>)?>::(partial_cmp|cmp)$')
+def str_cmp(ctx, args, st):
+    """lexicographic comparison (UTF-8 byte order equals code point order); Option<String>: None < Some"""
+    partial = 'partial_cmp' in ctx.callee
+    def wrap(o):
+        v = Adt('Ordering', o, [])
+        return Some(v) if partial else v
+    a0, b0 = st.deref_all(args[0]), st.deref_all(args[1])
+    if 'Option<String>' in ctx.callee:
+        if a0.variant == 'None' or b0.variant == 'None':
+            o = 'Equal' if a0.variant == b0.variant else ('Less' if a0.variant == 'None' else 'Greater')
+            return ret(st, wrap(o))
+        a0, b0 = st.deref_all(a0.items[0]), st.deref_all(b0.items[0])
+    a, b = a0, b0
+    if not (isinstance(a, StrV) and isinstance(b, StrV)) or a.facts is not None or b.facts is not None: raise Unsupported(f'string comparison of {a!r} and {b!r}')
+    def go(s_, i):
+        if i >= len(a.chars) or i >= len(b.chars):
+            o = 'Equal' if len(a.chars) == len(b.chars) else ('Less' if len(a.chars) < len(b.chars) else 'Greater')
+            yield s_, 'ret', wrap(o); return
+        x, y = a.chars[i], b.chars[i]
+        if isinstance(x, int) and isinstance(y, int):
+            if x == y: yield from go(s_, i + 1)
+            else: yield s_, 'ret', wrap('Less' if x < y else 'Greater')
+            return
+        for s1, lt in ctx.ex.fork_bool(s_, z3.ULT(ch_expr(x), ch_expr(y))):
+            if lt:
+                yield s1, 'ret', wrap('Less'); continue
+            for s2, eq in ctx.ex.fork_bool(s1, ch_expr(x) == ch_expr(y)):
+                if eq: yield from go(s2, i + 1)
+                else: yield s2, 'ret', wrap('Greater')
+    return go(st, 0)
